@@ -67,6 +67,31 @@ def build(kind, arr):
     return Plane(arr) if single else PlaneCollection(arr)
 
 
+def other_forms(space, kind, vs, dep, res):
+    """the method and constructor spellings of the same operation must behave like the function"""
+    objs = [build(kind, v) for v in vs]
+    forms = []
+    if kind == "P":
+        ctor = Line if len(vs) == 2 else Plane
+        forms += [("method", lambda: objs[0].join(*objs[1:])), ("constructor", lambda: ctor(*objs))]
+    elif len(vs) == 2:
+        forms.append(("method", lambda: objs[0].meet(objs[1])))
+    for name, fn in forms:
+        try:
+            r2 = fn()
+        except LinearDependenceError:
+            if dep:
+                continue
+            return Fail("EXC:LinearDependenceError", f"lattice:{space}:single:{name}:general-position", str([v.tolist() for v in vs]))
+        except Exception as e:  # noqa: BLE001
+            return exc_fail(e, f"lattice:{space}:single:{name}")
+        if dep:
+            return Fail("NO_RAISE", f"lattice:{space}:single:{name}", f"{[v.tolist() for v in vs]} -> {r2.array.tolist()}")
+        if r2.array.shape != res.array.shape or not C.peq_all(r2.array, res.array, res.array.ndim):
+            return mismatch(f"lattice:{space}:single:{name}:value", ([v.tolist() for v in vs], r2.array.tolist()))
+    return None
+
+
 def single_check(space, vecs):
     """one single-object call; returns Fail or None"""
     kind = "P" if space[0] == "p" else "H"
@@ -100,12 +125,15 @@ def single_check(space, vecs):
         if dep:
             if not (np.ndim(e.dependent_values) == 0 and bool(e.dependent_values)):
                 return mismatch(f"lattice:{space}:single:dependent_values", repr(e.dependent_values))
-            return None
+            return other_forms(space, kind, vs, dep, None)
         return Fail("EXC:LinearDependenceError", f"lattice:{space}:single:general-position", str(vecs))
     except Exception as e:  # noqa: BLE001
         return exc_fail(e, f"lattice:{space}:single")
     if dep:
         return Fail("NO_RAISE", f"lattice:{space}:single", f"{vecs} -> {res.array.tolist()}")
+    f = other_forms(space, kind, vs, dep, res)
+    if f is not None:
+        return f
     if exp is not None and not C.peq_all(res.array, exp):
         return mismatch(f"lattice:{space}:single:value", (vecs, res.array.tolist()))
     if exp is None:
